@@ -87,7 +87,17 @@ impl Kernel for Ledger {
             }
             sc::nr::IO_URING_ENTER => {
                 self.n_enter.set(self.n_enter.get() + 1);
-                kern::real(nr, a)
+                const GETEVENTS: usize = 1;
+                const EXT_ARG: usize = 8;
+                if a[2] > 0 && a[3] & GETEVENTS != 0 && a[3] & EXT_ARG == 0 {
+                    // a wait for completions is bounded (watchdog, real time): a ring that lost an
+                    // entry must end the run with a verdict, not hang it
+                    let ts: [i64; 2] = [5, 0];
+                    let arg: [u64; 3] = [0, 0, ts.as_ptr() as u64];
+                    kern::real(nr, [a[0], a[1], a[2], a[3] | EXT_ARG, arg.as_ptr() as usize, 24])
+                } else {
+                    kern::real(nr, a)
+                }
             }
             _ => kern::real(nr, a),
         }
@@ -151,7 +161,8 @@ fn run_ops(dec: Dec, opts: &RunOpts, slot: u64, nbatches: usize) -> RunOut {
     std::fs::create_dir_all(&da).unwrap();
     std::fs::create_dir_all(&db).unwrap();
     let mut sim = Sim::new(dec, SimCfg { record: opts.record, ..SimCfg::default() });
-    let entries = 1u32 << sim.dec.choose(K::Cfg, 7);
+    // requested sizes: powers of two and sizes the kernel rounds up
+    let entries = if sim.dec.chance(K::Cfg, 1, 3) { 1 + sim.dec.choose(K::Cfg, 64) } else { 1u32 << sim.dec.choose(K::Cfg, 7) };
     let led = Ledger { ring_fd: Cell::new(-1), maps: RefCell::new(Vec::new()), foreign_unmaps: RefCell::new(Vec::new()), closes_of_ring: Cell::new(0), fail_call: Cell::new(None), setup_calls: Cell::new(0), fired: Cell::new(false), n_enter: Cell::new(0) };
     sim.set_kernel(&led);
     let mut viol: Option<Violation> = None;
@@ -308,6 +319,7 @@ fn run_ops(dec: Dec, opts: &RunOpts, slot: u64, nbatches: usize) -> RunOut {
                     match io_uring_enter(ring.fd, (ops.len() - waited.min(ops.len())) as u32, (ops.len() - got.len()) as u32, IoUringEnterFlags::IORING_ENTER_GETEVENTS) {
                         Ok(_) => {}
                         Err(e) if e.code == Some(rusl::error::Errno::EINTR) => continue,
+                        Err(e) if e.code == Some(rusl::error::Errno::ETIME) => return Some(Violation { sig: "ops|completion-missing".into(), detail: format!("{} of {} submitted entries produced no completion within 5 s", ops.len() - got.len(), ops.len()) }),
                         Err(e) => return Some(Violation { sig: "ops|enter-failed".into(), detail: format!("{e:?}") }),
                     }
                     waited = ops.len();
@@ -553,6 +565,7 @@ fn submit_reap(ring: &mut IoUring, entries: Vec<(u64, Sqe)>) -> Result<BTreeMap<
         match io_uring_enter(ring.fd, if submitted { 0 } else { n as u32 }, (n - got.len()) as u32, IoUringEnterFlags::IORING_ENTER_GETEVENTS) {
             Ok(_) => {}
             Err(e) if e.code == Some(rusl::error::Errno::EINTR) => continue,
+            Err(e) if e.code == Some(rusl::error::Errno::ETIME) => return Err(Violation { sig: "ops|completion-missing".into(), detail: format!("{} of {n} submitted entries produced no completion within 5 s", n - got.len()) }),
             Err(e) => return Err(Violation { sig: "ops|enter-failed".into(), detail: format!("{e:?}") }),
         }
         submitted = true;
@@ -765,7 +778,7 @@ fn run_ext_ops(dec: Dec, opts: &RunOpts, slot: u64, rounds: usize) -> RunOut {
     std::fs::create_dir_all(&da).unwrap();
     std::fs::create_dir_all(&db).unwrap();
     let mut sim = Sim::new(dec, SimCfg { record: opts.record, ..SimCfg::default() });
-    let entries = 1u32 << (1 + sim.dec.choose(K::Cfg, 5));
+    let entries = if sim.dec.chance(K::Cfg, 1, 3) { 2 + sim.dec.choose(K::Cfg, 31) } else { 1u32 << (1 + sim.dec.choose(K::Cfg, 5)) };
     let led = Ledger { ring_fd: Cell::new(-1), maps: RefCell::new(Vec::new()), foreign_unmaps: RefCell::new(Vec::new()), closes_of_ring: Cell::new(0), fail_call: Cell::new(None), setup_calls: Cell::new(0), fired: Cell::new(false), n_enter: Cell::new(0) };
     sim.set_kernel(&led);
     let mut viol: Option<Violation> = None;
